@@ -91,6 +91,14 @@ pub fn event(run: usize, p: &Problem) -> Value {
                 let iq: Vec<usize> = (0..p.q.len()).rev().collect();
                 let vq: Vec<f64> = iq.iter().map(|&i| p.q[i]).collect();
                 if run % 4 < 2 { sv.update_q(&std::iter::zip(&iq, &vq)).expect("update_q"); } else { sv.update_q(&(iq, vq)).expect("update_q"); }
+                // the matrices are rewritten with their own values, entry by entry, through the owned (indices, values) form
+                let ia: Vec<usize> = (0..A.nzval.len()).rev().collect();
+                let va: Vec<f64> = ia.iter().map(|&i| A.nzval[i]).collect();
+                if !ia.is_empty() { sv.update_A(&(ia, va)).expect("update_A"); }
+                let pt = P.to_triu();
+                let ip: Vec<usize> = (0..pt.nzval.len()).rev().collect();
+                let vp: Vec<f64> = ip.iter().map(|&i| pt.nzval[i]).collect();
+                if !ip.is_empty() && pt.nzval.len() == P.nzval.len() { sv.update_P(&(ip, vp)).expect("update_P"); }
                 sv
             } else { DefaultSolver::new(&P, &p.q, &A, &p.b, &cones, st.clone()) }
         } else { DefaultSolver::new(&P, &p.q, &A, &p.b, &cones, st.clone()) };
